@@ -33,6 +33,7 @@ from abc import ABC, abstractmethod
 from dataclasses import dataclass
 from typing import TYPE_CHECKING, Any, Generic, TypeVar, cast
 
+import numpy as np
 from constantdict import constantdict
 from typing_extensions import Never
 
@@ -75,8 +76,6 @@ from pytato.utils import normalized_slice_does_not_change_axis
 
 if TYPE_CHECKING:
     from collections.abc import Mapping
-
-    import numpy as np
 
 
 ToIndexLambdaT = TypeVar("ToIndexLambdaT", Array, AbstractResultWithNamedArrays)
@@ -285,6 +284,20 @@ def _get_reshaped_indices(
     return sum(index_expressions, ())
 
 
+def _cast_operand(expr: ArithmeticExpression,
+                  operand_dtype: np.dtype[Any],
+                  result_dtype: np.dtype[Any]) -> ArithmeticExpression:
+    """
+    Cast an operand to the result's dtype, as binary operations do: otherwise the
+    target language's promotion rules (not numpy's) decide in which type the
+    operand takes part in the result.
+    """
+    if operand_dtype != result_dtype and result_dtype != np.bool_:
+        from pytato.scalar_expr import TypeCast
+        return TypeCast(result_dtype, expr)
+    return expr
+
+
 class ToIndexLambdaMixin:
     def rec_size_tuple(self, situp: ShapeType) -> ShapeType:
         new_situp = tuple(
@@ -328,7 +341,8 @@ class ToIndexLambdaMixin:
         #            ...
         #                _inNm1[_0, _1, ...] ...))
         for i in range(len(expr.arrays) - 1, -1, -1):
-            subarray_expr = prim.Variable(f"_in{i}")[subscript]
+            subarray_expr = _cast_operand(prim.Variable(f"_in{i}")[subscript],
+                                          expr.arrays[i].dtype, expr.dtype)
             if i == len(expr.arrays) - 1:
                 stack_expr = subarray_expr
             else:
@@ -379,7 +393,8 @@ class ToIndexLambdaMixin:
         #                _inNm1[_0, _1, ...] ...))
         for i in range(len(expr.arrays) - 1, -1, -1):
             lbound, ubound = lbounds[i], ubounds[i]
-            subarray_expr = get_subscript(i, lbound)
+            subarray_expr = _cast_operand(get_subscript(i, lbound),
+                                          rec_arrays[i].dtype, expr.dtype)
             if i == len(expr.arrays) - 1:
                 concat_expr: ArithmeticExpression = subarray_expr
             else:
